@@ -247,7 +247,7 @@ where
     where
         Registry: ContainsEntities<Entities, Indices>,
     {
-        self.len += entities.len();
+        let length = entities.len();
 
         let canonical_entities =
             // SAFETY: Since `entities` is already a `Batch`, then the canonical entities derived
@@ -260,11 +260,17 @@ where
         // by the archetype's identifier.
         //
         // `self.entity_allocator` is guaranteed to live as long as the archetype.
-        unsafe {
+        let entity_identifiers = unsafe {
             self.archetypes
                 .get_mut_or_insert_new_for_entity::<<<Registry as contains::entities::Sealed<Entities, Indices>>::Canonical as entities::Contains>::Entity, <Registry as contains::entities::Sealed<Entities, Indices>>::CanonicalContainments>()
                 .extend(canonical_entities, &mut self.entity_allocator)
-        }
+        };
+
+        // The entities are counted once they are stored: storing them can panic (when the batch is
+        // larger than any allocation can be).
+        self.len += length;
+
+        entity_identifiers
     }
 
     /// Query for components contained within the `World` using the given [`Views`] `V` and
